@@ -189,6 +189,23 @@ func init() {
 		}
 		return tuple{out, pat, found}
 	}
+	// Orient64(x) = (canonical term, negated): x == canon or x == -canon; the flag is syntactic (concrete)
+	intrinsics[v+"Orient64"] = func(fr *frame, args []value) value {
+		if x, ok := args[0].(int64); ok {
+			return tuple{x, false}
+		}
+		cn, neg := fr.i.run.ctx.Orient(fr.i.term(args[0]))
+		return tuple{fr.i.mkval(cn, types.Int64), neg}
+	}
+	intrinsics[v+"Abs64"] = func(fr *frame, args []value) value {
+		if x, ok := args[0].(int64); ok {
+			if x < 0 {
+				return -x
+			}
+			return x
+		}
+		return fr.i.mkval(fr.i.run.ctx.Abs(fr.i.term(args[0])), types.Int64)
+	}
 	intrinsics[v+"Published"] = func(fr *frame, args []value) value {
 		var out []value
 		for _, s := range published(args[0].(string), args[1].(string)) {
@@ -698,6 +715,9 @@ func init() {
 
 	// reflect.ValueOf is only met while building error values (json.UnsupportedValueError): zero Value
 	intrinsics["reflect.ValueOf"] = func(fr *frame, args []value) value {
+		if !anySym(args) {
+			return notHandled{} // the interpreter's own reflect support handles concrete values
+		}
 		pkg := fr.i.prog.ImportedPackage("reflect")
 		if pkg == nil || pkg.Type("Value") == nil {
 			unsup("reflect.ValueOf")
